@@ -119,7 +119,7 @@ def showPP : PP → String
 def showCall (method : String) (c : Call) : String :=
   method ++ ":" ++ c.target ++ "." ++ c.fn ++ "(" ++ "+".intercalate (c.kwargs.map fun (k, v) => k ++ "=" ++ showVal v) ++ ")"
 
-def parseEnv : Environ := ⟨table, "/pkg", fun _ => []⟩
+def parseEnv : Environ := { langs := table, pkgDir := "/pkg", dirFiles := fun _ => [] }
 
 def answerParse (toks : List String) : String :=
   match toks.mapM decS with
